@@ -188,6 +188,29 @@ def run(ck):
         if abs(gotb - base_b * medb) > (2e-6 if kern_big == 'l2_high_dim' else 1e-9) * base_b * medb:
             ck.violation(f'stored bandwidth {gotb!r} != base bandwidth {base_b} x lower median {medb!r} of the pairwise distances of ALL {nb} training points (= {base_b * medb!r}) on {descb}',
                          dict(descb, got=gotb, want=base_b * medb), key=json.dumps(dict(site='bandwidth', iters0=True)))
+    # ---- logistic leaf solver (binary classification, zero/one encoding) in adaptive mode: the bandwidth stored with the leaf is still base x median of the pairwise
+    #      distances between ITS TRAINING POINTS (the validation points, here concentrated away from the training cloud, play no part in it)
+    for i in range(ck.n(4, 12)):
+        kern = ['l2', 'l1', 'l2_high_dim', 'lpq'][i % 4]
+        nl = int(rng.integers(40, 90)); dl = 3; basel = [2.0, 0.7][i % 2]; itl = [0, 2, 1][i % 3]
+        Xl = rng.standard_normal((nl, dl)).astype(np.float32); yl = (Xl[:, 0] > 0).astype(np.int64)
+        Xvl = (0.3 * rng.standard_normal((20, dl)) + 1.0).astype(np.float32); yvl = (Xvl[:, 0] > 1.0).astype(np.int64); yvl[0] = 0; yvl[1] = 1
+        pl = xr.default_rfm_params(kernel=kern, iters=itl, reg=1e-2, bandwidth=basel, bandwidth_mode='adaptive', diag=bool(i % 2), **(dict(norm_p=1.5) if kern == 'lpq' else {}))
+        pl[['fit', 'model'][(i // 2) % 2]]['solver'] = 'log_reg'
+        descl = dict(kind='logistic leaf', i=i, kernel=kern, n=nl, iters=itl, base=basel, diag=bool(i % 2), seed=ck.seed)
+        ml = xr.xRFM(rfm_params=pl, max_leaf_size=10_000, verbose=False, classification_mode='zero_one', use_temperature_tuning=False)
+        try:
+            with xr.quiet():
+                ml.fit(torch.tensor(Xl), torch.tensor(yl), torch.tensor(Xvl), torch.tensor(yvl))
+        except Exception as e:
+            ck.notes.append(f'logistic adaptive fit failed on {descl}: {e!r}'[:250]); continue
+        lm = ml.trees[0]['model']; nn = int(lm.centers.shape[0])
+        Dl = kernel_distance_matrix(lm, lm.centers); offl = Dl[~torch.eye(nn, dtype=torch.bool)]
+        medl = float(torch.sort(offl).values[(len(offl) - 1) // 2]); gotl = float(lm.kernel_obj.bandwidth)
+        ck.case(dict(descl, bandwidth=gotl, expected=basel * medl), nontrivial=True); ck.count('logistic leaf solver, adaptive bandwidth')
+        if abs(gotl - basel * medl) > 3e-6 * max(1.0, basel * medl):
+            ck.violation(f'stored bandwidth {gotl!r} != base bandwidth {basel} x lower median {medl!r} of the pairwise distances of the leaf\'s training points (= {basel * medl!r}) '
+                         f'with the logistic leaf solver on {descl}', dict(descl, got=gotl, want=basel * medl), key=json.dumps(dict(site='bandwidth', solver='log_reg')))
     res = ck.run_bool_cases('median', HEADER, cases, shard=40)
     bad = [meta[k] for k, v in res.items() if v is not True]
     ck.obligation(f'correspondence: stored bandwidth / base is a lower median of the recomputed distances for {len(cases)} fits (Coq lower_median_okb)',
